@@ -1,5 +1,30 @@
 import D2V.Drv.SemIO
-open Lean D2V.Drv D2V.SemIO D2V.Sem
+open Lean D2V.Drv D2V.SemIO D2V.Sem D2V.SemSpec
+
+def violToVerdict : Viol → Verdict
+  | none => .ok
+  | some (sig, detail) => .specfalse sig detail
+
+def obsOf (o : Json) (k : String) : Except String Obs := do decodeObs (← getObj o k)
+
+/-- differential programs: the sentences of C10 evaluated on what the real compiler returned -/
+def handleDiff (i o : Json) : Except String Verdict := do
+  let k ← getStr i "key"
+  let base ← obsOf o "base"
+  match base with
+  | .graph b =>
+    let need (name : String) (f : Dump → Viol) : Except String Viol := do
+      match ← obsOf o name with
+      | .graph d => pure (f d)
+      | .errors cls msg => pure (some ("redeclaration-rejected", s!"variant {name} of key {k}: {cls} {msg}"))
+      | .panic => pure (some ("compile-panic", s!"variant {name}"))
+    let v1 ← need "null" fun d => nullRemoves k b d
+    let v2 ← need "renull" fun d => redeclareFresh k d
+    let v3 ← need "relabel" fun d => redeclareMerges k "ZZlbl" b d
+    let v4 ← need "twin" fun d => redeclareMerges k "ZZtwin" b d
+    let v5 ← need "primary" fun d => primaryLastWins k "ZZprim" b d
+    return violToVerdict (firstViol [v1, v2, v3, v4, v5])
+  | _ => return .bad "base program of a differential case does not compile"
 
 def handleC10 (j : Json) : Except String Verdict := do
   let k ← getStr j "k"
@@ -9,6 +34,7 @@ def handleC10 (j : Json) : Except String Verdict := do
     let prog ← decodeProg i
     let obs ← decodeObs o
     return compareCore prog obs
+  if k == "diff" then return ← handleDiff i o
   return .bad s!"unknown case kind {k}"
 
 def main : IO Unit := runDriver handleC10
